@@ -337,7 +337,9 @@ PPL::Constraint::ascii_load(std::istream& s) {
   std::string str;
   std::string str2;
 
-  expr.ascii_load(s);
+  if (!expr.ascii_load(s)) {
+    return false;
+  }
 
   if (!(s >> str)) {
     return false;
@@ -371,6 +373,11 @@ PPL::Constraint::ascii_load(std::istream& s) {
     else {
       return false;
     }
+  }
+
+  // A not necessarily closed row has the epsilon coefficient.
+  if (topology() == NOT_NECESSARILY_CLOSED && expr.space_dimension() == 0) {
+    return false;
   }
 
   // Checking for equality of actual and declared types.
